@@ -412,7 +412,7 @@ def check_c14(rep, tier):
     r = core.rng(rep.seed, "C14")
     stats, kinds = Counter(), Counter()
     sessions = [(name, env, script) for name, env, script in ADVERSARIAL]
-    nrand = 12 if tier == "quick" else 300
+    nrand = 12 if tier == "quick" else 900
     for i in range(nrand):
         env = {}
         if r.random() < 0.5:
@@ -512,7 +512,7 @@ def check_c19(rep, tier):
     deep = [(roots.START, 6), (roots.START, 7), (E2E4, 6), (E2E4, 7), (roots.PERFT[1], 5), (roots.START, 8)]
     if tier == "thorough":
         deep += [(f, 6) for f in roots.ALL[:12]]
-    heavy = ["position startpos", "go depth 8", "wait", "position startpos moves e2e4 e7e5", "go depth 7", "wait",
+    heavy = ["position startpos", "go depth 9", "wait", "position startpos moves e2e4 e7e5", "go depth 7", "wait",
              "position startpos", "go movetime 250", "stop", "ucinewgame"]
     with cf.ThreadPoolExecutor(max_workers=8) as ex:
         dfresh = list(ex.map(lambda j: engine_search(*j), deep))
